@@ -17,7 +17,8 @@ pub enum HashMode {
     /// All keys fall into `c` hash values (per run); `c = 1` collides everything, whole CMS rows
     /// and all Bloom positions included.
     Buckets(u32),
-    /// One word hashed: the hash *is* the word. Two words `[iv, x]`: `x >> 32` when `iv == 0`,
+    /// One word hashed: the hash *is* the word. Two words `[iv, x]`: `x >> 32` when `iv == 0` (its top
+    /// 256 values spread onto the top of the u64 range),
     /// `x & 0xffff_ffff` otherwise. The generator thereby places quotient/remainder, HLL register
     /// and rank, cuckoo fingerprint (high half) and bucket (low half), Bloom/CMS `h1`/`h2`.
     Identity,
@@ -91,7 +92,14 @@ impl Hasher for SimHasherState {
                 if self.n <= 1 {
                     self.last
                 } else if self.first == 0 {
-                    self.last >> 32
+                    // the top 256 values of the 32-bit field map onto the top of the 64-bit range, so
+                    // that the generator can also place hashes such as u64::MAX and u64::MAX - 1
+                    let v = self.last >> 32;
+                    if v >= 0xFFFF_FF00 {
+                        u64::MAX - (0xFFFF_FFFF - v)
+                    } else {
+                        v
+                    }
                 } else {
                     self.last & 0xffff_ffff
                 }
